@@ -2,7 +2,7 @@
 import os, json
 from .common import run_tlc, write_ndjson, read_ndjson, in_arith_range, Machinery, tlc_error_excerpt, OUT
 
-ALL_MONITORS = ["MonRound0", "MonThreshold0", "MonPartition", "MonExactlySeats", "MonBounded", "MonConservation",
+ALL_MONITORS = ["MonRound0", "MonThreshold0", "MonPartition", "MonExactlySeats", "MonBounded", "MonConservation", "MonRandomTie",
                 "MonTiebreaks", "MonDPC"]
 
 
